@@ -112,7 +112,8 @@ pub fn run_enc<T: Model>(ctx: &mut Ctx) {
             }
             // C04 (<-): what the specification serializer produces must be accepted with this value;
             // the `spec` line above ties Spec.ser to these bytes, the decode line ties acceptance.
-            ctx.out.m(if <T as Decode>::is_ssz_fixed_len() { "decf" } else { "dec" }, &dec_str::<T>(&bytes), &["dec", &d, &hx]);
+            // decoding of a produced encoding (what the round-trip theorem needs from the decoder)
+            ctx.out.m("encdec", &dec_str::<T>(&bytes), &["dec", &d, &hx]);
             ctx.out.bump(&format!("enc.len.{}", bucket(bytes.len())));
         }
         if ctx.on("entry") {
@@ -321,7 +322,8 @@ pub fn run_dec<T: Model>(ctx: &mut Ctx) {
             Err(_) => "panic".to_string(),
         };
         // fixed-size types get their own label so that C07 depends only on them
-        ctx.out.m(if fixed { "decf" } else { "dec" }, &s, &["dec", &d, &hx]);
+        // and non-strict ones (ordered collections, transparent enums) theirs, so that C02 does not depend on them
+        ctx.out.m(if fixed { "decf" } else if T::strict() { "dec" } else { "decns" }, &s, &["dec", &d, &hx]);
         if T::strict() && T::roundtrip() {
             // C04: the Lean decoder is proven equal to the strict reference deserializer (C04.decode_iff_spec),
             // so for these types a disagreement is an implementation-vs-specification failure
